@@ -29,10 +29,12 @@ def parseInfo (obs : List String) : ScriptInfo :=
   let m := kvs obs
   let v := (look m "v" "").toList
   let vids := ["v0", "v1", "v2", "v3"]
-  { parse := look m "p" == "1", typed := look m "t" == "s", pdbrps := listTok (look m "d"), tmplOk := look m "tv" == "1",
+  { parse := look m "p" == "1", typed := look m "t" == "s" || look m "t" == "b", pdbrps := listTok (look m "d"),
+    tmplOk := look m "tv" == "1",
     valid := fun vid => match vids.findIdx? (· == vid) with
       | some i => v.getD i '0' == '1'
-      | none => false }
+      | none => false,
+    batch := look m "t" == "b", qdbrps := listTok (look m "q") }
 
 def mkEnv (tab : List (String × ScriptInfo)) : Env := fun s =>
   match tab.find? (fun p => p.1 == s) with
@@ -65,6 +67,19 @@ def parseRow (s : String) : Option Row :=
   | [id, _ty, st, ex, tm, sc, v, d] =>
     some (id, { script := sc, vars := v, tmpl := undash tm, dbrps := listTok d, enabled := st == "e" }, ex == "1")
   | _ => none
+
+/-- (type, script) of every row of a task or template listing: the stored Type must be the type of the stored script. -/
+def rowTypes (tok : String) (tyIdx scIdx : Nat) : List (String × String) :=
+  if tok == "-" then [] else (tok.splitOn "|").map fun s => ((s.splitOn ";").getD tyIdx "?", (s.splitOn ";").getD scIdx "?")
+
+def typesOk (env : Env) (l : List (String × String)) : Bool :=
+  l.all fun p => p.1 == (if (env p.2).batch then "batch" else "stream")
+
+/-- `snaps=` of a listing: (id, stored payload, payload the executing task was restored with). -/
+def parseSnaps (tok : String) : List (String × String × String) :=
+  (listTok tok).filterMap fun s => match s.splitOn ":" with
+    | [i, p, r] => some (i, p, r)
+    | _ => none
 
 def parseRows (tok : String) : Option (List Row) :=
   if tok == "-" then some [] else (tok.splitOn "|").mapM parseRow
@@ -118,6 +133,11 @@ structure St where
   accepted : Nat := 0
   rejected : Nat := 0
   restarts : Nat := 0
+  snaps : Snaps := []                    -- stored snapshots the spec expects
+  prevExec : List String := []           -- executing set of the previous listing
+  allStarted : Bool := false             -- the last request was a process start (every executing task was just started)
+  snapsAtReq : Snaps := []               -- the stored snapshots when the last request began
+  reqsSinceList : Nat := 0               -- requests since the previous listing
 
 def St.mm (st : St) (d : String) : St := if st.mismatch.isSome then st else { st with mismatch := some d }
 def St.kn (st : St) (k d : String) : St := if st.known.isSome then st else { st with known := some (k, d) }
@@ -190,11 +210,33 @@ def judge (_id : String) (lines : Array String) : Verdict := Id.run do
                   | [] => false
                 let clause := if defsOk then "executing-iff-enabled-and-started" else "api-shows-last-accepted"
                 specfail := some (clause, s!"{p.what}: expected {exp} shown {renderRows rows} tmpls {renderTmpls tm} exec {exec}")
-      st := { st with pend := none, before := rowsFn rows }
+      -- snapshots: stored until the task is deleted; a task started since the previous listing was restored from
+      -- the snapshot stored under its ID
+      let sn := parseSnaps (look m "snaps")
+      if specfail.isNone then
+        let stored := (sn.filter (fun x => x.2.1 != "-")).map (fun x => (x.1, x.2.1))
+        let expected := st.ids.filterMap (fun i => (st.snaps.get i).map (fun p => (i, p)))
+        if stored != expected then
+          specfail := some ("snapshot-survives", s!"expected {expected} stored {stored}")
+        else
+          -- exactly one request since the previous listing: a task that executes now and did not before (or any task
+          -- after a process start) was started by that request, from the snapshot stored when the request began
+          for i in exec do
+            if st.reqsSinceList == 1 && (st.allStarted || !st.prevExec.contains i) then
+              let restored := match sn.find? (fun x => x.1 == i) with | some x => x.2.2 | none => "-"
+              if restored != (st.snapsAtReq.get i).getD "-" && specfail.isNone then
+                specfail := some ("snapshot-restored-at-start", s!"task {i} restored with {restored}, stored {(st.snapsAtReq.get i).getD "-"}")
+      st := { st with pend := none, before := rowsFn rows, prevExec := exec, allStarted := false, reqsSinceList := 0 }
+      -- the stored Type is the type of the stored script (model header: derived, not stored)
+      if !typesOk env (rowTypes (look m "tasks") 1 5) then st := st.mm s!"task type differs from the type of its script: {look m "tasks"}"
+      if !typesOk env (rowTypes (look m "tmpls") 1 2) then st := st.mm s!"template type differs from the type of its script: {look m "tmpls"}"
       -- 2. the tie
       if rows != modelRows st.w then st := st.mm s!"list: model {renderRows (modelRows st.w)} observed {renderRows rows}"
       if tm != modelTmpls st.w then st := st.mm s!"templates: model {renderTmpls (modelTmpls st.w)} observed {renderTmpls tm}"
       if !(st.ids.all fun i => exec.contains i == st.w.exec i) then st := st.mm s!"executing: observed {exec}"
+    | ["snap", id, payload] =>
+      if obs.head? != some "ok" then return .badop l
+      st := { st with snaps := snapSave st.snaps id payload, ids := insId id st.ids }
     | _ =>
       let some op := parseOp opT | return .badop l
       -- a request that was not followed by a listing: adopt what the spec expects (nothing was observed)
@@ -286,6 +328,11 @@ def judge (_id : String) (lines : Array String) : Verdict := Id.run do
                         | none => none }
           else { cands := [], what := l, devModel := some "crash-between-transactions" }
       st := { st with pend := some p }
+      -- snapshots: the request completed unless its FIRST transaction (deleteTask: snapshots.Delete) failed / the
+      -- process came back from the file as it was before the request
+      st := { st with snapsAtReq := st.snaps, reqsSinceList := st.reqsSinceList + 1 }
+      if !(fault == some 1 || cut == some 0) then st := { st with snaps := snapStep st.snaps op }
+      if op == .restart || cut.isSome then st := { st with allStarted := true }
       if op == .restart then st := { st with restarts := st.restarts + 1 }
       else if resp = .ok then st := { st with accepted := st.accepted + 1 }
       else st := { st with rejected := st.rejected + 1 }
